@@ -1778,54 +1778,24 @@ class PseudoNetCDFFile(PseudoNetCDFSelfReg, object):
                 refdate = _parse_ref_date(base)
 
                 if calendar in _calendaryearlike:
-                    refyear = refdate.year
-                    # Get a year for relative day calculations
-                    yearlike = _calendaryearlike[calendar]
-                    # In that year, how many seconds and days are there
-                    yearseconds = (date(yearlike + 1, 1, 1) -
-                                   date(yearlike, 1, 1)).total_seconds()
-                    yeardays = yearseconds / 3600 / 24
-
-                    # Get a new reference date in yearlike
-                    crefdate = datetime(yearlike, 1, 1, tzinfo=utc)
-                    if refdate.month != 1 or refdate.day != 1:
-                        # Get start date in yearlike
-                        refcdate = datetime(
-                            yearlike, refdate.month, refdate.day, tzinfo=utc)
-                        # Calculate delta in years
-                        addyears = (
-                            crefdate - refcdate).total_seconds() / yearseconds
-                    else:
-                        addyears = 0
-                    # Convert time to fractional years, including change in
-                    # reference
-                    incrdenom = {'years': 1, 'days': yeardays,
-                                 'hours': yeardays * 24,
-                                 'minutes': yeardays * 24 * 60,
-                                 'seconds': yeardays * 24 * 60}[unit]
-                    fracyearincrs = time[:] / incrdenom + addyears
-                    # Split into years and days
-                    yearincrs = np.array(fracyearincrs // 1).astype('i')
-                    dayincrs = (fracyearincrs % 1) * yeardays
-                    # Add days to the calendar year reference
-                    cdays = [crefdate + timedelta(days=dayinc)
-                             for dayinc in dayincrs]
-                    try:
-                        # Combine calendar specific month and day with new year
-                        out = np.array([
-                            datetime(refyear + yearinc, cday.month,
-                                     cday.day, tzinfo=utc)
-                            for yearinc, cday in zip(yearincrs, cdays)])
-                    except Exception:
-                        warn(('Years calculated from %d day year, but ' +
-                              'month/days calculated for actual year. ' +
-                              'Usually means data has Feb 29th in a non ' +
-                              'leap year') % yeardays)
-                        out = np.array([
-                            datetime(refyear + yearinc, 1, 1, tzinfo=utc) +
-                            timedelta(days=float(dayinc))
-                            for yearinc, dayinc in zip(yearincrs, dayincrs)])
-
+                    # 365- and 366-day calendars: decode with the calendar
+                    # aware library, then present as standard datetimes
+                    # (dates that do not exist in the real calendar, e.g.
+                    # Feb 29 of a non-leap year, raise ValueError)
+                    from netCDF4 import num2date
+                    # normalized units: same reference instant as parsed
+                    # above for every accepted spelling
+                    cunits = '%s since %s' % (
+                        unit,
+                        refdate.astimezone(utc).strftime('%Y-%m-%d %H:%M:%S'))
+                    cdates = num2date(
+                        np.asarray(time[:], dtype='d'), cunits, calendar,
+                        only_use_cftime_datetimes=True)
+                    out = np.array([
+                        datetime(cd.year, cd.month, cd.day, cd.hour,
+                                 cd.minute, cd.second, cd.microsecond,
+                                 tzinfo=utc)
+                        for cd in np.atleast_1d(cdates)])
                 else:
                     out = refdate + \
                         np.array([timedelta(**{unit: float(i)})
